@@ -158,8 +158,9 @@ Section search.
   Variable m w : nat.                         (* number of startpoints, clog2 of it *)
   Variable cnt : val → nat.                   (* the count a consistent valuation stands for *)
   Variable solve : list (string * bool) → bool.
-  (* sound and complete solver *)
-  Hypothesis solve_ok : ∀ asm, solve asm = true ↔ ∃ v, consistent T v ∧ Forall (λ p : string * bool, v p.1 = p.2) asm.
+  (* sound and complete on the queries the search makes *)
+  Hypothesis solve_ok : ∀ k, k ≤ m → let asm := asm_of (int_to_bin_le k w) in
+    solve asm = true ↔ ∃ v, consistent T v ∧ Forall (λ p : string * bool, v p.1 = p.2) asm.
   Hypothesis Hw : clog2 m = Ok w.
   Hypothesis cnt_le : ∀ v, consistent T v → cnt v ≤ m.
   (* the transform's encoding clause, for the bit positions the search constrains (see width_ok) *)
@@ -171,7 +172,7 @@ Section search.
     (solve (asm_of (int_to_bin_le k w)) = true ↔ ∃ v, consistent T v ∧ cnt v = k).
   Proof.
     intros Hk Hub. destruct (clog2_spec _ _ Hw) as (_ & Hmw & _).
-    rewrite solve_ok. split.
+    rewrite (solve_ok k Hk). split.
     - intros (v & Hv & Ha). exists v. split; [done|].
       unfold asm_of in Ha. apply asm_link in Ha. fold (sen_bits v (length (int_to_bin_le k w))) in Ha.
       rewrite enc in Ha by done.
@@ -794,4 +795,282 @@ Proof.
   - intros ρ Hsens. apply (Hcomp _ _ E1).
     destruct (sp_ext _ _ _ _ _ Hsp ρ) as (v & Hv & Hag). exists v. split; [done|].
     constructor; [|done]. simpl. by apply (sp_sat _ _ _ _ _ Hsp ρ v).
+Qed.
+
+
+(* ================================================================================================ *)
+(* 11. from the shape of the transform circuit to the specification used by the props functions        *)
+Lemma ext_of_acyclic T (sp : list string) : closed T → acyclic T → free_nodes T = list_to_set sp →
+  ∀ ρ : val, ∃ v, consistent T v ∧ ∀ s, s ∈ sp → v s = ρ s.
+Proof.
+  intros Hcl Hac Hfree ρ. destruct (unique_extension T Hcl Hac ρ) as (v & Hv & Hag & _).
+  exists v. split; [done|]. intros s Hs. apply Hag. rewrite Hfree. by apply elem_of_list_to_set.
+Qed.
+
+(* sensitization circuit: SC is the mitered sub-circuit of c (c itself when no endpoints are selected) *)
+Theorem sens_spec_of_shape c SC x (E : gset string) sp T :
+  closed c → acyclic c → inputs_only c → sub_of SC c → x ∈ dom SC → E ⊆ dom SC →
+  sens_shape SC x E T → closed T → acyclic T →
+  free_nodes T = list_to_set sp → startpoints T = list_to_set sp → inputs SC = list_to_set sp →
+  sens_spec c x (elements E) sp T.
+Proof.
+  intros Hcl Hac Hio Hsub Hx HE Hsh HclT HacT HfT HsT HiS.
+  assert (HclS : closed SC) by apply Hsub.
+  assert (HacS : acyclic SC) by (by eapply sub_acyclic).
+  assert (HioS : inputs_only SC) by (by eapply sub_inputs_only).
+  split; [done|by apply ext_of_acyclic|].
+  intros ρ v Hv Hag.
+  rewrite (sens_shape_spec SC x E T HclS HacS HioS Hx HE Hsh v Hv).
+  rewrite (sens_at_sub SC c x (elements E) v Hsub Hcl Hac Hx) by (intros e He%elem_of_elements; by apply HE).
+  rewrite <- (sens_at_sub SC c x (elements E) ρ Hsub Hcl Hac Hx) by (intros e He%elem_of_elements; by apply HE).
+  rewrite <- (sens_at_sub SC c x (elements E) v Hsub Hcl Hac Hx) by (intros e He%elem_of_elements; by apply HE).
+  apply sens_at_ext; try done.
+  - intros e He%elem_of_elements. by apply HE.
+  - intros s Hs. apply Hag. apply (free_is_input SC s HioS) in Hs. rewrite HiS in Hs. by apply elem_of_list_to_set in Hs.
+Qed.
+
+(* ================================================================================================ *)
+(* 12. props.sensitivity = maximum of the count, for every graph with the shape of the sensitivity circuit *)
+Lemma take_take_bits L W c : L ≤ W → take L (take_bits W c) = take_bits L c.
+Proof.
+  revert W c. induction L as [|L IH]; intros W c HL; [done|].
+  destruct W as [|W]; [lia|]. cbn [take_bits take]. f_equal. apply IH. lia.
+Qed.
+Lemma take_sen_bits (v : val) L W : L ≤ W → take L (sen_bits v W) = sen_bits v L.
+Proof.
+  intros HL. unfold sen_bits. rewrite <- fmap_take. f_equal.
+  replace W with (L + (W - L)) by lia. rewrite seq_app. apply take_app_alt. by rewrite seq_length.
+Qed.
+Lemma count_le c n sp ρ : count c n sp ρ ≤ length sp.
+Proof. unfold count. apply filter_length. Qed.
+Lemma count_ext c n sp a a' : closed c → acyclic c → n ∈ dom c → (∀ x, x ∈ free_nodes c → a x = a' x) →
+  count c n sp a = count c n sp a'.
+Proof.
+  intros Hcl Hac Hn Hf. unfold count. f_equal. apply list_filter_iff. intros s.
+  assert (H1 : evalc c a n = evalc c a' n) by (by apply evalc_free_ext).
+  assert (H2 : evalc c (flipv a s) n = evalc c (flipv a' s) n).
+  { apply evalc_free_ext; try done. intros y Hy. unfold flipv. case_bool_decide as Hys; [subst y; f_equal|]; by apply Hf. }
+  unfold flipsb. by rewrite H1, H2.
+Qed.
+
+Theorem sensitivity_spec (solve : list (string * bool) → bool) c SUB n sp PC W w T :
+  closed c → acyclic c → inputs_only c → sub_of SUB c → n ∈ dom SUB → inputs SUB = list_to_set sp →
+  sv_shape SUB n sp PC W T → popcount_correct PC (length sp) W →
+  closed T → acyclic T → free_nodes T = list_to_set sp →
+  1 ≤ length sp → clog2 (length sp) = Ok w → clog2 (length sp + 1) = Ok W →
+  (∀ k, k ≤ length sp → let asm := asm_of (int_to_bin_le k w) in
+     solve asm = true ↔ ∃ v, consistent T v ∧ Forall (λ p : string * bool, v p.1 = p.2) asm) →
+  ∃ k, search solve w (length sp) = Ok k ∧ is_sensitivity c n sp k.
+Proof.
+  intros Hcl Hac Hio Hsub Hn HiS Hsh Hpc HclT HacT HfT Hm Hw HW Hsolve.
+  assert (HclS : closed SUB) by apply Hsub.
+  assert (HacS : acyclic SUB) by (by eapply sub_acyclic).
+  assert (HioS : inputs_only SUB) by (by eapply sub_inputs_only).
+  assert (Hext := ext_of_acyclic T sp HclT HacT HfT).
+  destruct (search_max T (length sp) w (count SUB n sp) solve Hsolve Hw) as (k & Hk & (v & Hv & Hcv) & Hub).
+  - intros v _. apply count_le.
+  - intros v k Hv Hk.
+    pose proof (sen_out_spec SUB n sp PC W T HclS HacS HioS Hn Hsh v Hv Hpc) as Henc.
+    pose proof (width_ok (length sp) w W k Hw HW Hk) as HL.
+    rewrite <- (take_sen_bits v _ W HL), Henc. by apply take_take_bits.
+  - destruct (Hext (λ _, false)) as (v & Hv & _). eauto.
+  - exists k. split; [done|]. split.
+    + exists v. rewrite <- (count_sub SUB c) by done. done.
+    + intros ρ. destruct (Hext ρ) as (v' & Hv' & Hag). rewrite <- (count_sub SUB c) by done.
+      rewrite <- (count_ext SUB n sp v' ρ); [by apply Hub|done..|].
+      intros s Hs. apply Hag. apply (free_is_input SUB s HioS) in Hs. rewrite HiS in Hs. by apply elem_of_list_to_set in Hs.
+Qed.
+
+
+(* ================================================================================================ *)
+(* 13. executable checkers for the hypotheses of the shape theorems (used on the recorded implementation outputs) *)
+Lemma map_forallb {A} (f : string * A → bool) (m : gmap string A) :
+  forallb f (map_to_list m) = true → ∀ k a, m !! k = Some a → f (k, a) = true.
+Proof.
+  intros H k a Hk. rewrite forallb_forall in H. apply H. by apply elem_of_list_In, elem_of_map_to_list.
+Qed.
+
+Definition inputs_onlyb (c : circuit) : bool :=
+  forallb (λ p : string * ninfo, negb (is_free p.2) || bool_decide (n_ty p.2 = Input)) (map_to_list c).
+Lemma inputs_onlyb_sound c : inputs_onlyb c = true → inputs_only c.
+Proof.
+  intros H x i Hx Hf. pose proof (map_forallb _ _ H x i Hx) as Hb. simpl in Hb.
+  rewrite Hf in Hb. simpl in Hb. by apply bool_decide_eq_true in Hb.
+Qed.
+
+Definition sub_ofb (c' c : circuit) : bool :=
+  closedb c' &&
+  forallb (λ p : string * ninfo, match c !! p.1 with
+                                 | Some i => bool_decide (n_ty p.2 = n_ty i) && bool_decide (n_fi p.2 = n_fi i)
+                                 | None => false end) (map_to_list c').
+Lemma sub_ofb_sound c' c : sub_ofb c' c = true → sub_of c' c.
+Proof.
+  unfold sub_ofb. intros [Hcl H]%andb_true_iff. split; [|by apply closedb_spec].
+  intros y i' Hy. pose proof (map_forallb _ _ H y i' Hy) as Hb. simpl in Hb.
+  destruct (c !! y) as [i|]; [|done]. apply andb_true_iff in Hb as [H1%bool_decide_eq_true H2%bool_decide_eq_true]. eauto.
+Qed.
+
+Definition copy_okb (p : string) (T : circuit) (x : string) (i : ninfo) : bool :=
+  match T !! pre p x with
+  | Some j => bool_decide (n_ty j = n_ty i) && bool_decide (n_fi j = set_map (pre p) (n_fi i))
+  | None => false end.
+Lemma copy_okb_sound p T x i : copy_okb p T x i = true → copy_ok p T x i.
+Proof.
+  unfold copy_okb, copy_ok. destruct (T !! pre p x) as [j|]; [|done].
+  intros [H1%bool_decide_eq_true H2%bool_decide_eq_true]%andb_true_iff. eauto.
+Qed.
+Definition tie_okb (T : circuit) (name drv : string) (t : gtype) : bool :=
+  match T !! name with
+  | Some j => bool_decide (n_ty j = t) && bool_decide (n_fi j = {[drv]})
+  | None => false end.
+Lemma tie_okb_sound T name drv t : tie_okb T name drv t = true → tie_ok T name drv t.
+Proof.
+  unfold tie_okb, tie_ok. destruct (T !! name) as [j|]; [|done].
+  intros [H1%bool_decide_eq_true H2%bool_decide_eq_true]%andb_true_iff. eauto.
+Qed.
+Definition xor2_okb (T : circuit) (name a b : string) : bool :=
+  match T !! name with
+  | Some j => bool_decide (n_ty j = Xor) && bool_decide (n_fi j = {[a; b]})
+  | None => false end.
+Lemma xor2_okb_sound T name a b : xor2_okb T name a b = true → ∃ j, T !! name = Some j ∧ n_ty j = Xor ∧ n_fi j = {[a; b]}.
+Proof.
+  unfold xor2_okb. destruct (T !! name) as [j|]; [|done].
+  intros [H1%bool_decide_eq_true H2%bool_decide_eq_true]%andb_true_iff. eauto.
+Qed.
+
+Definition sat_okb (T : circuit) (E : gset string) : bool :=
+  match T !! "sat" with
+  | Some j => bool_decide (n_fi j = set_map (pre "dif") E) &&
+              match n_ty j with
+              | Or => negb (bool_decide (E = ∅))
+              | Buf => match elements E with [e] => true | _ => false end
+              | C0 => bool_decide (E = ∅)
+              | _ => false end
+  | None => false end.
+Lemma sat_okb_sound T E : sat_okb T E = true → sat_ok T E.
+Proof.
+  unfold sat_okb, sat_ok. destruct (T !! "sat") as [j|]; [|done].
+  intros [Hfi%bool_decide_eq_true Hty]%andb_true_iff. exists j. split; [done|]. split; [done|].
+  destruct (n_ty j) eqn:Ht; try done.
+  - right. left. split; [done|]. destruct (elements E) as [|e [|]] eqn:Hel; try done. exists e.
+    apply set_eq. intros y. rewrite <- elem_of_elements, Hel. set_solver.
+  - left. split; [done|]. apply negb_true_iff, bool_decide_eq_false in Hty. done.
+  - right. right. split; [done|]. by apply bool_decide_eq_true in Hty.
+Qed.
+
+Definition sens_shapeb (c : circuit) (n : string) (E : gset string) (T : circuit) : bool :=
+  forallb (λ p : string * ninfo,
+     (is_free p.2 || (copy_okb "c0" T p.1 p.2 && (bool_decide (p.1 = n) || copy_okb "c1" T p.1 p.2))) &&
+     (negb (bool_decide (n_ty p.2 = Input)) ||
+        (tie_okb T (pre "c0" p.1) p.1 Buf && (bool_decide (p.1 = n) || tie_okb T (pre "c1" p.1) p.1 Buf)))) (map_to_list c) &&
+  tie_okb T (pre "c1" n) (pre "c0" n) Not &&
+  forallb (λ e, xor2_okb T (pre "dif" e) (pre "c0" e) (pre "c1" e)) (elements E) &&
+  sat_okb T E.
+Lemma sens_shapeb_sound c n E T : sens_shapeb c n E T = true → sens_shape c n E T.
+Proof.
+  unfold sens_shapeb. intros [[[Hn Hflip]%andb_true_iff Hdif]%andb_true_iff Hsat]%andb_true_iff.
+  pose proof (map_forallb _ _ Hn) as Hnodes. clear Hn.
+  split.
+  - intros x i Hx Hf. specialize (Hnodes x i Hx). simpl in Hnodes. rewrite Hf in Hnodes. simpl in Hnodes.
+    apply andb_true_iff in Hnodes as [[H0 _]%andb_true_iff _]. by apply copy_okb_sound.
+  - intros x i Hx Hf Hne. specialize (Hnodes x i Hx). simpl in Hnodes. rewrite Hf in Hnodes. simpl in Hnodes.
+    apply andb_true_iff in Hnodes as [[_ H1]%andb_true_iff _]. rewrite bool_decide_eq_false_2 in H1 by done.
+    by apply copy_okb_sound.
+  - intros s (i & Hs & Ht)%elem_of_inputs. specialize (Hnodes s i Hs). simpl in Hnodes.
+    apply andb_true_iff in Hnodes as [_ H2]. rewrite Ht, bool_decide_eq_true_2 in H2 by done. simpl in H2.
+    apply andb_true_iff in H2 as [H2 _]. by apply tie_okb_sound.
+  - intros s (i & Hs & Ht)%elem_of_inputs Hne. specialize (Hnodes s i Hs). simpl in Hnodes.
+    apply andb_true_iff in Hnodes as [_ H2]. rewrite Ht, bool_decide_eq_true_2 in H2 by done. simpl in H2.
+    apply andb_true_iff in H2 as [_ H2]. rewrite bool_decide_eq_false_2 in H2 by done. by apply tie_okb_sound.
+  - by apply tie_okb_sound.
+  - intros e He. rewrite forallb_forall in Hdif. apply xor2_okb_sound. apply Hdif. by apply elem_of_list_In, elem_of_elements.
+  - by apply sat_okb_sound.
+Qed.
+
+Definition sv_shapeb (c : circuit) (n : string) (sp : list string) (PC : circuit) (W : nat) (T : circuit) : bool :=
+  forallb (λ p : string * ninfo,
+     (is_free p.2 || (copy_okb "orig" T p.1 p.2 && forallb (λ s0, copy_okb (pre "inv" s0) T p.1 p.2) sp)) &&
+     (negb (bool_decide (n_ty p.2 = Input)) ||
+        (tie_okb T (pre "orig" p.1) p.1 Buf &&
+         forallb (λ s0, bool_decide (p.1 = s0) || tie_okb T (pre (pre "inv" s0) p.1) p.1 Buf) sp))) (map_to_list c) &&
+  forallb (λ s0, tie_okb T (pre (pre "inv" s0) s0) s0 Not &&
+                 xor2_okb T (pre "dif_out" s0) (pre "orig" n) (pre (pre "inv" s0) n)) sp &&
+  forallb (λ p : string * ninfo, is_free p.2 || copy_okb "pc" T p.1 p.2) (map_to_list PC) &&
+  forallb (λ q : nat * string, tie_okb T ("pc_in_" ++ pretty q.1) (pre "dif_out" q.2) Buf) (imap (λ i s, (i, s)) sp) &&
+  forallb (λ o, tie_okb T ("sen_out_" ++ pretty o) ("pc_out_" ++ pretty o) Buf) (seq 0 W).
+Lemma sv_shapeb_sound c n sp PC W T : sv_shapeb c n sp PC W T = true → sv_shape c n sp PC W T.
+Proof.
+  unfold sv_shapeb. intros [[[[Hn Hsp]%andb_true_iff Hpc]%andb_true_iff Hin]%andb_true_iff Hout]%andb_true_iff.
+  pose proof (map_forallb _ _ Hn) as Hnodes. clear Hn.
+  pose proof (map_forallb _ _ Hpc) as Hpcs. clear Hpc.
+  rewrite forallb_forall in Hsp. rewrite forallb_forall in Hin. rewrite forallb_forall in Hout.
+  split.
+  - intros x i Hx Hf. specialize (Hnodes x i Hx). simpl in Hnodes. rewrite Hf in Hnodes. simpl in Hnodes.
+    apply andb_true_iff in Hnodes as [[H0 _]%andb_true_iff _]. by apply copy_okb_sound.
+  - intros s (i & Hs & Ht)%elem_of_inputs. specialize (Hnodes s i Hs). simpl in Hnodes.
+    apply andb_true_iff in Hnodes as [_ H2]. rewrite Ht, bool_decide_eq_true_2 in H2 by done. simpl in H2.
+    apply andb_true_iff in H2 as [H2 _]. by apply tie_okb_sound.
+  - intros s0 x i Hs0 Hx Hf. specialize (Hnodes x i Hx). simpl in Hnodes. rewrite Hf in Hnodes. simpl in Hnodes.
+    apply andb_true_iff in Hnodes as [[_ H1]%andb_true_iff _]. rewrite forallb_forall in H1.
+    apply copy_okb_sound, H1. by apply elem_of_list_In.
+  - intros s0 s Hs0 (i & Hs & Ht)%elem_of_inputs Hne. specialize (Hnodes s i Hs). simpl in Hnodes.
+    apply andb_true_iff in Hnodes as [_ H2]. rewrite Ht, bool_decide_eq_true_2 in H2 by done. simpl in H2.
+    apply andb_true_iff in H2 as [_ H2]. rewrite forallb_forall in H2. specialize (H2 s0 ltac:(by apply elem_of_list_In)).
+    rewrite bool_decide_eq_false_2 in H2 by done. by apply tie_okb_sound.
+  - intros s0 Hs0. specialize (Hsp s0 ltac:(by apply elem_of_list_In)). apply andb_true_iff in Hsp as [H _]. by apply tie_okb_sound.
+  - intros s0 Hs0. specialize (Hsp s0 ltac:(by apply elem_of_list_In)). apply andb_true_iff in Hsp as [_ H]. by apply xor2_okb_sound.
+  - intros x i Hx Hf. specialize (Hpcs x i Hx). simpl in Hpcs. rewrite Hf in Hpcs. by apply copy_okb_sound.
+  - intros i s0 Hi. apply tie_okb_sound. apply (Hin (i, s0)). apply elem_of_list_In.
+    apply elem_of_lookup_imap. eauto.
+  - intros o Ho. apply tie_okb_sound, Hout. apply elem_of_list_In, elem_of_seq. lia.
+Qed.
+
+
+(* ================================================================================================ *)
+(* 14. the transform theorems relative to the ORIGINAL circuit c (SC / SUB: the sub-circuit that was copied) *)
+Theorem sensitization_shape_spec c SC n (E : gset string) T :
+  closed c → acyclic c → inputs_only c → sub_of SC c → n ∈ dom SC → E ⊆ dom SC → sens_shape SC n E T →
+  ∀ v, consistent T v → (v "sat" = true ↔ sens_at c n (elements E) v).
+Proof.
+  intros Hcl Hac Hio Hsub Hn HE Hsh v Hv.
+  rewrite (sens_shape_spec SC n E T (so_closed _ _ Hsub) (sub_acyclic _ _ Hsub Hac) (sub_inputs_only _ _ Hsub Hio) Hn HE Hsh v Hv).
+  apply sens_at_sub; try done. intros e He%elem_of_elements. by apply HE.
+Qed.
+Theorem sensitivity_shape_spec c SUB n sp PC W T :
+  closed c → acyclic c → inputs_only c → sub_of SUB c → n ∈ dom SUB → sv_shape SUB n sp PC W T →
+  ∀ v, consistent T v →
+    (∀ s, s ∈ sp → v (pre "dif_out" s) = true ↔ flips c n s v) ∧
+    (popcount_correct PC (length sp) W → sen_bits v W = take_bits W (count c n sp v)).
+Proof.
+  intros Hcl Hac Hio Hsub Hn Hsh v Hv.
+  pose proof (so_closed _ _ Hsub) as HclS. pose proof (sub_acyclic _ _ Hsub Hac) as HacS.
+  pose proof (sub_inputs_only _ _ Hsub Hio) as HioS. split.
+  - intros s Hs. rewrite (dif_out_spec SUB n sp PC W T HclS HacS HioS Hn Hsh v Hv s Hs).
+    rewrite (flipsb_sub SUB c) by done. apply flipsb_true.
+  - intros Hpc. rewrite (sen_out_spec SUB n sp PC W T HclS HacS HioS Hn Hsh v Hv Hpc). by rewrite (count_sub SUB c).
+Qed.
+
+(* ================================================================================================ *)
+(* 15. brute force over the free nodes is a sound and complete solver / exact counter on closed acyclic circuits:
+       the Section hypotheses about the external solver are satisfiable, and the oracle's stand-ins are correct *)
+Definition asm_holds (asm : list (string * bool)) (v : val) : Prop := Forall (λ p : string * bool, v p.1 = p.2) asm.
+Definition asm_holdsb (asm : list (string * bool)) (v : val) : bool := forallb (λ p : string * bool, eqb (v p.1) p.2) asm.
+Lemma asm_holdsb_spec asm v : asm_holdsb asm v = true ↔ asm_holds asm v.
+Proof.
+  unfold asm_holdsb, asm_holds. rewrite forallb_forall, Forall_forall.
+  setoid_rewrite eqb_true_iff. setoid_rewrite <- elem_of_list_In. done.
+Qed.
+Definition bf_solve (T : circuit) (free : list string) (asm : list (string * bool)) : bool :=
+  existsb (λ ρ, asm_holdsb asm (evalc T ρ)) (all_vals free).
+Lemma bf_solve_ok T free asm : closed T → acyclic T → free_nodes T = list_to_set free →
+  (∀ p, p ∈ asm → p.1 ∈ dom T) →
+  bf_solve T free asm = true ↔ ∃ v, consistent T v ∧ asm_holds asm v.
+Proof.
+  intros Hcl Hac Hfree Hasm. unfold bf_solve. rewrite existsb_exists. split.
+  - intros (ρ & _ & H). exists (evalc T ρ). split; [by apply evalc_consistent|by apply asm_holdsb_spec].
+  - intros (v & Hv & H). destruct (all_vals_complete free v) as (w & Hw & Hag).
+    exists w. split; [by apply elem_of_list_In|]. apply asm_holdsb_spec.
+    assert (Heq : agrees (dom T) v (evalc T w)).
+    { apply evalc_agrees; try done. intros x Hx. rewrite Hfree in Hx. apply elem_of_list_to_set in Hx. symmetry. by apply Hag. }
+    unfold asm_holds in *. rewrite Forall_forall in H |- *. intros p Hp. rewrite <- (Heq p.1) by (by apply Hasm). by apply H.
 Qed.
